@@ -512,6 +512,38 @@ func checkShapes(c *vm.Ctx, r *vm.Rand, i int) {
 	}
 }
 
+// checkAfterRefused: an encode that is refused part-way (a text no NBT string can hold, arguments no list can hold)
+// must leave nothing behind: the component encoded next is judged like any other.
+func checkAfterRefused(c *vm.Ctx, r *vm.Rand, i int) {
+	var bad chat.Message
+	switch i % 4 {
+	case 0:
+		bad = chat.Message{Text: strings.Repeat("x", 70000)}
+	case 1:
+		bad = chat.Message{Translate: "chat.type.text", With: []any{"Steve", 42}}
+	case 2:
+		bad = chat.Message{Text: "outer", Extra: []chat.Message{{Text: "fine"}, {Text: strings.Repeat("y", 66000)}}}
+	default:
+		bad = chat.Message{Text: "t", Insertion: strings.Repeat("z", 70000), Bold: true}
+	}
+	refused := false
+	c.Guard("nbt/refused-write", func() any { return map[string]any{"case": i % 4} }, func() {
+		var sink bytes.Buffer
+		if _, err := bad.WriteTo(&sink); err != nil {
+			refused = true
+		}
+		if _, err := json.Marshal(bad); err != nil {
+			refused = true
+		}
+	})
+	feats := map[string]bool{}
+	m := genMsg(r, genCfg{forNBT: true}, feats)
+	if refused {
+		feats["after-a-refused-encode"] = true
+	}
+	checkMsg(c, m, feats, 99)
+}
+
 func checkMsg(c *vm.Ctx, m chat.Message, feats map[string]bool, i int) {
 	js, _ := json.Marshal(m)
 	desc := short(string(js))
@@ -1057,6 +1089,10 @@ func run(c *vm.Ctx) {
 	r := c.Rand("components")
 	for i := 0; i < c.Scale(30000, 800000); i++ {
 		checkComponent(c, r, i)
+	}
+	afr := c.Rand("after-refused")
+	for i := 0; i < c.Scale(400, 8000); i++ {
+		checkAfterRefused(c, afr, i)
 	}
 	sr := c.Rand("shapes")
 	for i := 0; i < c.Scale(160, 3000); i++ {
